@@ -1008,7 +1008,7 @@ theorem resolveNames_sim (c : Cls) (tr : List Trans) (D : Bytes) (K : StreamKind
       simp only [hdrFields, Prod.mk.injEq] at this
       exact this.2.2.1
     have hga : getString sL a.nameOff = getString sE b.nameOff := by rw [hs, hn]
-    simp only [resolveNames, bind, Except.bind] at hr ⊢
+    simp only [resolveNames, load_sections_name_found, bind, Except.bind] at hr ⊢
     rw [hga]
     cases hg : getString sE b.nameOff with
     | error f => rw [hg] at hr; exact absurd hr (by simp)
